@@ -4,8 +4,3 @@ From ClapModel Require Import Base.Bytes Base.Machine Base.Utf8.
 From ClapModel Require Import Parse.Cmd Parse.Build Parse.Valid Complete.EngineModel Complete.EngineProofs.
 From Coq Require Import ZArith.
 Open Scope N_scope.
-
-(** the unrepaired engine: totality fails (finding D) *)
-Theorem C18_total_refuted : exists tbl c args i site, complete_model tbl c args i = CPanic site.
-Proof. exact total_refuted. Qed.
-Print Assumptions C18_total_refuted.
